@@ -25,4 +25,5 @@ def same_function_lemma(F):
 
 def main(argv):
     return engined_prop.run("C03", {"C03", "C05"}, "Element i of a NumPy/Awkward result equals the object-backend result for element i; shapes and list structure preserved; "
-                            "scalars, arrays of scalars and single objects broadcast; result class/flavor/coordinate system as for the object backend.", extra_checks=same_function_lemma)
+                            "scalars, arrays of scalars and single objects broadcast; result class/flavor/coordinate system as for the object backend.", extra_checks=same_function_lemma,
+                            symbolic_numpy=True)
